@@ -57,6 +57,9 @@ func injectFaults(t *kernel.Tape, p *Plan, kinds []int, two bool) []lnode {
 			l.n.FailKind = 0
 		}
 		l.n.Early = false // the failure is raised when the node function is called
+		if l.n.FailKind == 1 && l.n.UseState && t.PlanBool(60) {
+			l.n.FailInState = true // the panic is raised inside the ProcessState callback
+		}
 		chosen = append(chosen, l)
 	}
 	return chosen
@@ -522,13 +525,13 @@ func tailOf(s string, n int) string {
 func init() {
 	core.Register(&core.Profile{
 		ID: "C04", Engine: "graphsim", Quick: 1500, Thorough: 40000, ThoroughSeeds: 3, Run: runC04,
-		Rule: "each run draws a plan in any mode (native paradigm subset per node, chunkings incl. empty chunks, pipe or array streams, lazily reading transforms, state handlers in value and stream form, output keys, field mappings, stream branches reading a prefix), optionally one failing node (error, panic, error item mid-stream), calls Invoke, Stream, Collect and Transform in a drawn order on the same compiled object, and one schedule; oracle: every paradigm equals the reference model and the others; failures in all four; 1 in 20 plans allows duplicate-key fan-in, 1 in 20 a mapping from a missing key (reported separately)",
+		Rule: "each run draws a plan in any mode (native paradigm subset per node, chunkings incl. empty chunks, pipe or array streams, lazily reading transforms, state handlers in value and stream form, output keys, field mappings, stream branches reading a prefix), optionally one failing node (error, panic, error item mid-stream), calls Invoke, Stream, Collect and Transform in a drawn order on the same compiled object, and one schedule; oracle: every paradigm equals the reference model and the others; failures in all four; 1 in 20 plans allows duplicate-key fan-in, 1 in 20 a mapping from a missing key (reported separately); 2 in 5 plans type some lambda outputs and nested graphs statically as any (runtime type checks on edges and before branches), 1 in 20 lets such an output take part in a fan-in (known finding)",
 		Real: graphReal, Stub: graphStub,
 		Faults: []string{"node error", "node panic", "error item mid-stream", "chunk arrival interleaving", "producer/consumer order"},
 	})
 	core.Register(&core.Profile{
 		ID: "C13", Engine: "graphsim", Quick: 2500, Thorough: 60000, ThoroughSeeds: 3, Run: runC13,
-		Rule: "each run draws a plan in any mode and one scenario: 1-2 failing nodes at any nesting depth (error sentinel, panic, error item mid-stream; possibly in the same superstep), context cancellation at a drawn scheduler step, or a cyclic plan running into its step limit; one call in any paradigm; oracle: errors.As recovers the injected sentinel / the panic value is in the error, the message names the failing node path, errors.Is matches ErrExceedMaxSteps and context.Canceled, no panic escapes, no hang",
+		Rule: "each run draws a plan in any mode and one scenario: 1-2 failing nodes at any nesting depth (error sentinel, panic, error item mid-stream; possibly in the same superstep), context cancellation at a drawn scheduler step, or a cyclic plan running into its step limit; one call in any paradigm; oracle: errors.As recovers the injected sentinel / the panic value is in the error, the message names the failing node path, errors.Is matches ErrExceedMaxSteps and context.Canceled, no panic escapes, no hang; a panicking node that uses the state may panic inside the ProcessState callback",
 		Real: graphReal, Stub: graphStub,
 		Faults: []string{"node error", "node panic", "several nodes failing in one step", "error item mid-stream", "context cancellation", "step limit"},
 	})
